@@ -487,6 +487,11 @@ def p_C14(ctx):
                 t = "k%d%d.lm%d" % (k[0], k[1], int(lm))
                 rs.append({"tag": "b." + t, "role": "b", "kexp": k, "lm": lm})
                 rs.append({"tag": "p." + t, "role": "p", "kexp": k, "lm": lm, "addpv": "RANDOM"})
+        # a FINE increment (a quarter of a percent of the on-site production of ONE step) under load matching: the
+        # matching factor is a smooth function of production / use - a little more production never lowers what is used
+        for j in (0, 1, 2):
+            rs.append({"tag": "b.fine%d" % j, "role": "b", "kexp": [0, 1], "lm": True})
+            rs.append({"tag": "p.fine%d" % j, "role": "p", "kexp": [0, 1], "lm": True, "addpv": "FINE%d" % j})
         return rs
     def fill(cs):
         import random, copy
@@ -495,11 +500,35 @@ def p_C14(ctx):
             c = copy.deepcopy(c)
             n = len(c["src"]["comps"][0]["v"]) if "comps" in c["src"] else file_steps(c["src"]["file"])
             d = [r.choice([0.0, 0.0, 1.0, 50.0, 700.0, 5000.0]) for _ in range(n)]
+            pv = [0.0] * n
+            for k_ in (c["src"].get("comps") or []):
+                if k_["kind"] == "PROD" and k_["src"] == "EL_INSITU":
+                    pv = [a + b for a, b in zip(pv, k_["v"])]
+            steps = [t for t in range(n) if pv[t] > 4] or [0]
+            keep = []
             for x in c["runs"]:
                 if x.get("addpv") == "RANDOM":
                     x["addpv"] = d
+                elif str(x.get("addpv", "")).startswith("FINE"):
+                    t = steps[(r.randrange(1 << 16) + int(x["addpv"][4:]) * 7) % len(steps)]
+                    x["addpv"] = [round(max(0.01, 0.0025 * pv[t]), 2) if i == t else 0.0 for i in range(n)]
+                if "fine" in x["tag"] and not any(pv):
+                    continue            # nothing to refine: the building has no on-site electricity
+                keep.append(x)
+            c["runs"] = keep
             yield c
     ctx.replay(fill(rnd(ctx, 150, 5000, rruns)), "random", "Trace_C14")
+    # a sweep of fine increments under load matching: one-step buildings whose on-site production grows by a quarter of a
+    # percent from case to case, each evaluated before and after the next increment - the matching factor is a smooth
+    # function of production / use, so no increment, however small, lowers what is used on site
+    def sweep():
+        for use, pv0, dl in ((400.5, 100.13, 0.25), (90.5, 60.07, 0.15), (1000.5, 37.03, 0.09), (55.5, 48.01, 0.12)):    # (never whole numbers: both events of a pair are then logged with the same number of decimals)
+            for j in range(64):
+                comps = [{"kind": "USED", "id": 0, "cr": "ELECTRICIDAD", "srv": "ILU", "src": "-", "v": [use], "cm": ""},
+                         {"kind": "PROD", "id": 0, "cr": "-", "srv": "-", "src": "EL_INSITU", "v": [round(pv0 + j * dl, 2)], "cm": ""}]
+                yield {"name": "fine-sweep", "src": {"comps": comps}, "fac": {"mode": "loc", "loc": ("PENINSULA", "CANARIAS")[j % 2]}, "kexp": [0, 1], "area": [1, 1], "lm": True,
+                       "runs": [{"tag": "b.sweep", "role": "b", "kexp": [0, 1], "lm": True}, {"tag": "p.sweep", "role": "p", "kexp": [0, 1], "lm": True, "addpv": [dl]}]}
+    ctx.replay(sweep(), "fine-sweep", "Trace_C14")
     f12 = [dict(c) for c in file_cases(rruns(None))]
     ctx.replay(fill(f12), "files", "Trace_C14")   # files with 12 steps get a 12-step increment, the others are skipped by the harness
     ctx.samples += ctx.sample_from_trace(ctx.last_trace, 1, fields=("case", "tag", "kexp", "lm", "run"))
@@ -630,6 +659,17 @@ def p_C11(ctx):
                       "runs": [{"tag": "base"}, {"tag": "s1_100", "scale": [1, 100]}, {"tag": "s100_1", "scale": [100, 1]}]})
             yield c
     ctx.replay(tiny(stride(vlib.mc_cases(c05), 5 if ctx.quick else 1, ctx.seed % 5 if ctx.quick else 0)), "completion-family", "Trace_C11")
+    # the MC_Comp family of systems with auxiliaries (several services, steps without any output): the DECLARED input is
+    # scaled ("pre"), so that the sharing of the auxiliaries is done on the scaled building - shares are ratios
+    c06 = ctx.mc("MC_Comp", "MC_Comp_C06_thorough.cfg")
+    def auxfam(cs):
+        for c in cs:
+            c = dict(c)
+            c.update({"fac": {"mode": "loc", "loc": "PENINSULA"}, "kexp": [1, 2], "area": [1, 1], "lm": False,
+                      "runs": [{"tag": "base"}, {"tag": "s3_1", "scale": [3, 1], "pre": True}, {"tag": "s1_8", "scale": [1, 8], "pre": True},
+                               {"tag": "s64_1", "scale": [64, 1], "pre": True}]})
+            yield c
+    ctx.replay(auxfam(stride(vlib.mc_cases(c06), 24 if ctx.quick else 4, ctx.seed % 24 if ctx.quick else 0)), "aux-family", "Trace_C11")
     # DHW supply mixes of MC_C15 (biomass, district heat, heat pumps, auxiliaries): the DHW renewable fraction
     # must not move with the scale or the area, also when both change together
     st15 = ctx.mc("MC_C15", "MC_C15_quick.cfg" if ctx.quick else "MC_C15_thorough.cfg", timeout=3000)
